@@ -564,3 +564,79 @@ def rule_aggcollect(P) -> RuleResult:
             else:
                 res.ok({'function': fi.fq, 'tree': label, 'aggregates': [show(x) for x in got[1]], 'columns': [show(x) for x in got[0]]})
     return res
+
+
+# ----------------------------------------------------------------------
+# R-OPRESOLVE (C04, C05): an operator whose operand types match no registered overload is rejected
+
+def rule_opresolve(P) -> RuleResult:
+    """Every operator handler of the compiler, fed operands whose types match none of the registered overloads (the lookup finds
+    nothing; every candidate's __intypes__ differs; no implicit cast applies): the statement must be rejected with a
+    CompilationError.  A handler that builds the node regardless accepts ill-typed operands, which then fail during execution."""
+    import ast as _ast
+    res = RuleResult('R-OPRESOLVE')
+    comp = P.cls(CO, 'Compiler')
+    handlers = []
+    for name, fi in comp.methods.items():
+        regs = [_ast.unparse(d) for d in fi.node.decorator_list if _ast.unparse(d).startswith('_compile.register')]
+        if not regs:
+            continue
+        ann = _ast.unparse(fi.node.args.args[1].annotation) if len(fi.node.args.args) > 1 and fi.node.args.args[1].annotation else ''
+        keys = ' '.join(regs) + ' ' + ann
+        import re as _re
+        if _re.search(r'ast\.(UnaryOp|BinaryOp|Between|In|NotIn)\b', keys):
+            handlers.append(fi)
+    if len(handlers) < 4:
+        raise AnalysisError(f'only {len(handlers)} operator handlers found')
+    NODE = Sym('AST_NODE')
+    CAND = Sym('CANDIDATE_OVERLOAD')
+    for fi in handlers:
+        compiled = {}
+
+        def on_attr(base, attr, ex):
+            if attr == 'dtype' and base in compiled.values():
+                return Sym('DTYPE_' + base.name)
+            if base == CAND and attr == '__intypes__':
+                return SList([Sym('OTHER_TYPE_A'), Sym('OTHER_TYPE_B'), Sym('OTHER_TYPE_C')][:max(1, len(compiled))])
+            return NotImplemented
+
+        def on_call(fn, fv, rc, a, k, ex, nd):
+            f = str(fn).split('.')[-1]
+            if f == '_compile' and a:
+                return compiled.setdefault(repr(a[0]), Sym(f'C_OPERAND{len(compiled)}'))
+            if f == 'function_lookup':
+                return None
+            if f == 'type':
+                return Sym('NODETYPE')
+            if fv == CAND:
+                return T('new', ('OPERATOR_NODE', a))
+            if f in ('name', 'lower', 'format', 'join'):
+                return 'x'
+            if f == 'get' and str(fn).endswith('MAP.get'):
+                return None
+            if f == 'EvalConstantSubquery1D':
+                return T('new', ('EvalConstantSubquery1D', a))
+            return NotImplemented
+
+        def on_item(base, idx, ex):
+            if isinstance(base, T) and base.op == 'global' and base.args[0].endswith('OPERATORS'):
+                return SList([CAND])
+            return NotImplemented
+
+        def on_isinstance(v, c, ex):
+            return False
+        compiled.clear()
+        paths = Engine(P, on_attr=on_attr, on_call=on_call, on_item=on_item, on_isinstance=on_isinstance,
+                       globals_={'OPERATORS': T('global', ('OPERATORS',)), 'FUNCTIONS': T('global', ('FUNCTIONS',))}).paths(
+            fi, {'self': SELF, fi.params[1]: NODE})
+        accepted = [p for p in paths if p.outcome != 'raise']
+        wrong = [p for p in paths if p.outcome == 'raise' and not _is_programming_error(P, p.value[0])]
+        if accepted:
+            res.fail(fi.fq, 'opresolve:unchecked',
+                     f'{fi.qualname} builds the operator node without matching the operand dtypes against the registered '
+                     f'overloads: ill-typed operands are accepted (`{show(accepted[0].value)[:60]}`) and fail during execution', loc(fi))
+        elif wrong:
+            res.fail(fi.fq, 'opresolve:class', f'{fi.qualname}: operands that match no overload raise {wrong[0].value[0]}, not a CompilationError', loc(fi))
+        else:
+            res.ok({'handler': fi.fq, 'resolution': 'by operand dtypes, CompilationError otherwise', 'paths': len(paths)})
+    return res
